@@ -150,6 +150,18 @@ def run_batch(case: Dict[str, Any]) -> Dict[str, Any]:
             t = threading.Thread(target=worker_loop, args=(w, transport, executor, stop, logger, 0.01), daemon=True)
             threads.append(t)
             t.start()
+        noise_stop = threading.Event()
+        if case.get("noise"):
+            # fire-and-forget jobs keep arriving while the batch is worked on (the master never idles in its 0.2 s poll)
+            def noise():
+                filler = [{"processor": "FloatSquareOperation"}]
+                while not noise_stop.is_set() and not stop.is_set():
+                    master.enqueue(filler, data=observe.build_data(M.F(0.0)))
+                    time.sleep(0.002)
+
+            nt = threading.Thread(target=noise, daemon=True)
+            threads.append(nt)
+            nt.start()
         for k in late:
             if case["jobs"][k]["pause_ms"]:
                 time.sleep(case["jobs"][k]["pause_ms"] / 1000.0)
@@ -166,6 +178,12 @@ def run_batch(case: Dict[str, Any]) -> Dict[str, Any]:
             state = (sum(f.done() for f in futures), len(status_pubs), started[0], active[0], master.job_queue.qsize(), pending_msgs)
             if state != last_state:
                 last_state, last_change = state, time.time()
+            if time.time() - t0 > 25:
+                noise_stop.set()  # let the system drain so that quiescence can be decided
+            workers_alive = [t for t in threads[1:1 + case["workers"]] if t.is_alive()]
+            if not mt.is_alive() or not workers_alive:
+                quiescent = True  # nobody is left who could complete a pending future
+                break
             idle = active[0] == 0 and master.job_queue.qsize() == 0 and pending_msgs == 0
             if idle and time.time() - last_change > 3.0:
                 quiescent = True
@@ -184,6 +202,7 @@ def run_batch(case: Dict[str, Any]) -> Dict[str, Any]:
                 results.append({"state": "result", "data": observe.norm_data(d), "ctx": observe.norm_ctx(c)})
         out["results"] = results
     finally:
+        noise_stop.set()
         stop.set()
         master.running = False
         for t in threads:
@@ -195,7 +214,7 @@ def run_batch(case: Dict[str, Any]) -> Dict[str, Any]:
 def check_case(case: Dict[str, Any], col: Collector) -> None:
     r = run_batch(case)
     n = len(case["jobs"])
-    labs = ["jobs:%d" % min(n, 9), "workers:%d" % case["workers"], "switch:%g" % case["switch"]]
+    labs = ["jobs:%d" % min(n, 9), "workers:%d" % case["workers"], "switch:%g" % case["switch"]] + (["burst_with_background_traffic"] if case.get("noise") else [])
     if case["fail_at"] is not None:
         labs.append("failing_job")
         labs.append("fail_at:%s" % ("first" if case["fail_at"] == 0 else "last" if case["fail_at"] == n - 1 else "middle"))
@@ -236,12 +255,30 @@ def check_case(case: Dict[str, Any], col: Collector) -> None:
 
 
 def plan(tier: str, seed: int, scale: float = 1.0) -> List[Dict[str, Any]]:
-    nshards, n, mj = (16, 14, 8) if tier == "quick" else (16, 70, 40)
-    return [{"seed": seed * 3571 + i, "n": max(2, int(n * scale)), "max_jobs": mj, "timeout": 1500, "timeout_ok": True} for i in range(nshards)]
+    nshards, n, mj = (12, 14, 8) if tier == "quick" else (16, 70, 40)
+    specs = [{"seed": seed * 3571 + i, "n": max(2, int(n * scale)), "max_jobs": mj, "timeout": 1500, "timeout_ok": True} for i in range(nshards)]
+    # bursts: 40 jobs on 4 workers at the shortest switch interval, all published before the workers drain them
+    nb, rounds = (4, 3) if tier == "quick" else (8, 12)
+    specs += [{"kind": "burst", "seed": seed * 97 + i, "rounds": rounds, "timeout": 1500, "timeout_ok": True} for i in range(nb)]
+    return specs
+
+
+def burst_case(seed: int, r: int) -> Dict[str, Any]:
+    kinds = ["float", "collection", "none", "float"]
+    jobs = []
+    for k in range(40):
+        kind = kinds[(seed + r + k) % 4]
+        payload = M.F(float(k + 1)) if kind == "float" else M.NONE if kind == "none" else M.C([float(k + 1 + j) for j in range((seed + k) % 4)])
+        jobs.append({"kind": kind, "payload": payload, "pause_ms": 0, "before_start": (k % 5) != 4})
+    return {"jobs": jobs, "fail_at": (seed * 7 + r * 13) % 40, "workers": 4, "switch": 1e-6, "noise": True}
 
 
 def run_shard(spec: Dict[str, Any]) -> Dict[str, Any]:
     col = Collector()
+    if spec.get("kind") == "burst":
+        for r in range(spec["rounds"]):
+            check_case(burst_case(spec["seed"], r), col)
+        return col.result()
     run_campaign(c15_case(spec.get("max_jobs", 8)), lambda c: check_case(c, col), spec["n"], spec["seed"])
     return col.result()
 
